@@ -211,6 +211,8 @@ def run(check, mirror, tier):
     for variant, (fn, pnames, kmin) in sorted(PARAMS.items()):
         for k in range(kmin, len(pnames) + 1):
             mk(variant, fn, pnames, k)
+    from checks import C08_core
+    C08_core.jobs_for(check, mirror, rb, crate, U, jobs, tier, KNOWN_PRED)
     run_parallel(check, jobs)
 
 
